@@ -9,8 +9,8 @@ from harness import rbgen
 ID = "C16"
 RULE = ("kind=gen: random rulebooks over the rule grammar + config pairs (as C03/C08), served to the real front ends by a "
         "RulebookProvider; kind=corpus: every (before, after) sample of tests/annet/test_patch with the shipped rulebook "
-        "of its vendor, plus per-vendor cross products of corpus configs (a's before vs b's after) and sub-trees; "
-        "non-trivial = the patch has >=2 commands; distinct = distinct case")
+        "of its vendor, plus per-vendor cross products of corpus configs (a's before vs b's after) and sub-trees;"
+        + rbgen.SMALL_RULE % ("", "") + " non-trivial = the patch has >=2 commands; distinct = distinct case")
 TRUSTED_BASE = [
     "Lean 4.33 kernel; axioms per theorem listed (subset of propext, Classical.choice, Quot.sound)",
     "vendor %logic functions are parameters of the model (theorems quantify over every logic table); on the shipped corpus the "
@@ -77,10 +77,19 @@ def shards(tier, seed):
     out.append(dict(kind="corpus"))
     n = 40 if tier == "quick" else 4000
     out += [dict(kind="cross", seed=seed * 1000 + i, n=n) for i in range(4)]
+    if tier == "quick":
+        out += [dict(kind="small", part=(seed * 2 + i) % 512, parts=512) for i in range(2)]
+    else:
+        out += [dict(kind="small", part=i, parts=32) for i in range(32)]
     return out
 
 
 def gen(desc):
+    if desc["kind"] == "small":
+        for c in rbgen.small_cases(desc["part"], desc["parts"]):
+            c["kind"] = "gen"
+            yield c
+        return
     if desc["kind"] == "gen":
         rng = random.Random(desc["seed"])
         for _ in range(desc["n"]):
